@@ -131,7 +131,7 @@ impl<'u> Resolver<'u> {
         let mut out = vec![(gav.clone(), pom)];
         let mut cur = pom;
         while let Some(p) = &cur.parent {
-            if out.len() > 16 { return Err("parent chain too long (cycle?)".into()); }
+            if out.len() > 1000 { return Err("parent chain too long (cycle?)".into()); }
             let (_, pp) = self.u.fetch(p).ok_or_else(|| format!("no repository serves parent {}", p.show()))?;
             if pp.packaging.as_deref() != Some("pom") { return Err(format!("parent {} is not of packaging pom", p.show())); }
             out.push((p.clone(), pp));
@@ -241,7 +241,7 @@ impl TreeBuilder<'_, '_> {
     pub fn build(&mut self, coord: &Coord, scope: Scope, depth: u32, edge: Option<EDep>, parent_scope: Option<Scope>) -> Result<TNode, String> {
         if self.budget == 0 { return Err("TOO-BIG".into()); }
         self.budget -= 1;
-        if depth > 64 { return Err("dependency cycle".into()); }
+        if depth > 1000 { return Err("dependency cycle".into()); }
         let e = self.r.effective(&coord.gav())?;
         let fault = self.r.opts.fault;
         let mut node = TNode { coord: coord.clone(), scope, repo: e.repo, depth, parent_scope, edge, group_inherited: e.group_inherited, version_inherited: e.version_inherited, children: vec![], cuts: vec![] };
